@@ -25,6 +25,15 @@ def embed(env, Q, inner, pos):
         return Q.from_(o).select(o.k).where(o.k == inner)
     if pos == "select-item":
         return Q.from_(o).select(o.k, inner)
+    o2 = P.Table("ot2")
+    if pos == "from-joined":
+        return Q.from_(inner).join(o2).on(inner.a == o2.k).select(inner.a, o2.k)
+    if pos == "in-joined":
+        return Q.from_(o).join(o2).on(o.k == o2.k).select(o.k).where(o.k.isin(inner))
+    if pos == "cte-joined":
+        return Q.with_(inner, "cq").from_(o).join(o2).on(o.k == o2.k).select(o.k, o2.j)
+    if pos == "select-item-joined":
+        return Q.from_(o).join(o2).on(o.k == o2.k).select(o.k, inner)
     if pos == "in-bool-group":   # the operand sits in a bracketed AND group under an OR
         return Q.from_(o).select(o.k).where((o.k == 1) | ((o.j == 2) & o.k.isin(inner)))
     if pos == "cmp-bool-group":
@@ -71,7 +80,7 @@ def observe(Q, d, h):
     env = execb.Env(Q)
     pos = h["pos"]
     ld = core.lex_dialect(d)
-    alias = "sqx" if pos in ("from", "join", "select-item") else ""
+    alias = "sqx" if pos in ("from", "join", "select-item", "from-joined", "select-item-joined") else ""
 
     def lexs(s):
         return lexer.slim(lexer.lex(s, ld))
@@ -87,7 +96,7 @@ def observe(Q, d, h):
     inner = mk(h["hist"])
     arity = len(inner._selects) or 1
     benign = mk([{"m": "from_", "src": "T2"}, {"m": "select", "terms": [{"k": "fld", "src": "T2", "n": "z%d" % i} for i in range(arity)]}])
-    if pos == "insert-select":
+    if pos == "insert-select" or h["clause"].startswith("dml-"):
         inner_alone = str(inner)
         benign_alone = str(benign)
     else:
@@ -119,6 +128,8 @@ def run(tier: str) -> int:
         for h in hs:
             if h["pos"] == "insert-select" and any(c["m"] == "with_" for c in h["hist"]):
                 continue  # WITH legitimately precedes INSERT INTO: not an embedding of the text after a prefix
+            if h["clause"].startswith("dml-") and d != "postgresql":
+                continue  # RETURNING is PostgreSQL's
             try:
                 ev = observe(Q, d, h)
             except core.MachineryError:
